@@ -403,6 +403,15 @@ impl<T: Qcow2IoOps> Qcow2Dev<T> {
         l2_table: &mut LockWriteGuard<L2Table>,
     ) -> Qcow2Result<Mapping> {
         let info = &self.info;
+
+        // a zero cluster which keeps its (exclusively owned) allocation:
+        // write into that cluster instead of leaking it
+        if let Some(host_off) = Self::zero_cluster_allocation(&l2_table.get_mapping(info, split)) {
+            self.mark_new_cluster(host_off >> info.cluster_bits()).await;
+            let _ = l2_table.map_cluster(split.l2_slice_index(info), host_off);
+            return Ok(l2_table.get_mapping(info, split));
+        }
+
         let allocated = self.allocate_cluster().await?;
         match allocated {
             Some(res) => {
@@ -435,6 +444,14 @@ impl<T: Qcow2IoOps> Qcow2Dev<T> {
             self.mark_need_flush(true);
         }
         Ok(l2_table.get_entry(&self.info, &split))
+    }
+
+    /// the host cluster of a zero cluster with a preallocation of its own
+    fn zero_cluster_allocation(mapping: &Mapping) -> Option<u64> {
+        match mapping.source {
+            MappingSource::Zero if mapping.copied => mapping.cluster_offset,
+            _ => None,
+        }
     }
 
     /// don't pre-populate mapping for backing & compressed cow, which
@@ -495,7 +512,14 @@ impl<T: Qcow2IoOps> Qcow2Dev<T> {
             let s = SplitGuestOffset(this_off);
             let mapping = l2_table.get_mapping(&self.info, &s);
 
-            if Self::need_make_mapping(&mapping, info) {
+            if let Some(host_off) = Self::zero_cluster_allocation(&mapping) {
+                // a zero cluster which keeps its allocation: write into
+                // that cluster instead of leaking it
+                self.mark_new_cluster(host_off >> info.cluster_bits()).await;
+                let _ = l2_table.map_cluster(s.l2_slice_index(info), host_off);
+                l2_handle.set_dirty(true);
+                self.mark_need_flush(true);
+            } else if Self::need_make_mapping(&mapping, info) {
                 nr_clusters += 1
             }
         }
